@@ -104,3 +104,6 @@ LEVEL_TEXT["C13"] = ("Theorems at every state satisfying the C09 invariant: gree
 LEVEL_TEXT["C16"] = ("Theorems on top of C09's invariant: mask k ↔ some explorable coalition of size k is unknown; a step with an allowed k reveals exactly the chosen previously-unknown coalition of that "
                      "size (for EVERY choice the sampler can make), reports it and returns the inner reward / done; observation = per-size sum of the inner observation, of length max explorable "
                      "size + 1 (= n with minimal knowledge, n ≥ 3). Tie: real ICG_Gym_Linear n = 3..6, the sampled coalition read from info and fed to the model.")
+
+LEVEL_TEXT["C01"] += (" 'Within float rounding' is made precise by ICG.Approx (Props/FloatError): with any addition / subtraction of absolute error ≤ δ per operation the computed lower bound is within "
+                      "(|S|−1)·δ and the upper bound within (n−|S|)·δ of the exact ones, so the computed interval widened by that slack contains every completion (approx_sound), and the slack is attained.")
